@@ -93,7 +93,7 @@ def cases(ctx):
     if ctx.shard == 0:
         yield {'kind': 'repo-tests'}        # the repository's own tests under K1-K6, as one more workload
     r = ctx.rng('docs')
-    for n in range(ctx.size(2600, 220000)):
+    for n in range(ctx.size(2600, 400000)):
         if r.random() < .04:
             ids = rtdoc.Ids()
             ids.n = 5000
